@@ -111,6 +111,11 @@ template <int S> struct Runner {
       Mat want = C; for (int i = 0; i < N; ++i) for (int j = 0; j < M; ++j) want.row(i * M + j) *= std::ldexp(1.0, -k * j);
       expect_bits("scale-time-coeffs", p, matvec(s2.getTrajectory().getCoefficients()), matvec(want));
       expect_bits("scale-time-energy", p, {s2.getEnergy()}, {E * std::ldexp(1.0, -k * (2 * S - 1))});
+      // the reparametrised curve itself, sampled on a coarse grid (steps that jump over whole segments) through the plain and the HINTED
+      // overload with one carried hint: x_scaled(start + b u) = x(start + u), derivative k scaled by b^-k -- exact for powers of two
+      { const auto &t1 = sp.getTrajectory(); const auto &t2 = s2.getTrajectory(); const double dur = t1.getDuration(); int hint = 0; bool oks = true; ++c.st.comparisons;
+        for (int i = 0; oks && i <= 8; ++i) { const double u = dur * i / 8.0; for (int kk = 0; oks && kk <= 2; ++kk) { auto a = t1.evaluate(t1.getStartTime() + u, kk); auto b1 = t2.evaluate(t2.getStartTime() + b * u, kk); auto b2 = t2.evaluate(t2.getStartTime() + b * u, &hint, kk);
+            for (int d = 0; d < D; ++d) { const double want = a(d) * std::ldexp(1.0, -k * kk); if (!(bits_equal(b1(d), want) || (b1(d) == 0.0 && want == 0.0)) || !bits_equal(b2(d), b1(d))) { fail("scale-time-curve", p, fmt("durations x 2^%d: derivative %d at start + %.17g: plain %.17g, hinted (carried hint, now %d) %.17g, expected %.17g", k, kk, b * u, b1(d), hint, b2(d), want)); oks = false; break; } } } } }
       // gradients: dE/dT x b^-2s; dE/dP x b^-(2s-1); dE/d(deriv j) x b^-(2s-1)+j
       Grads g2 = s2.getEnergyGrad(); std::vector<double> got = flat(g2, N), w = flat(EG, N);
       const int nb = nbasis(S, N);
